@@ -3,6 +3,7 @@ import GenjaxModel.Proofs.GfiCohInv
 import GenjaxModel.Proofs.GfiWeight
 import GenjaxModel.Proofs.VmapRule
 import GenjaxModel.Proofs.VmapRuleNest
+import GenjaxModel.Proofs.Interp
 /-!
 # C08 — modular_vmap and Vmap are lane-wise maps, for densities and for sampling
 
@@ -239,4 +240,14 @@ theorem C08_rule_nest_examples :
   refine ⟨by decide, by decide, by decide, by decide, by decide, by decide⟩
 
 end VmapRule
+/-- the modular_vmap interpreter with the guard of fix df67764 (Model/Interp.lean, kinds: scan / cond interpreted,
+    everything else re-bound): if it returns, EVERY sampling site of the mapped function was bound with the
+    vectorisation context (so none is one draw shared by the lanes); before the fix a site escaped exactly when
+    a re-bound equation (jit, checkpoint, custom_jvp, while) held it -/
+theorem C08_mvmap_no_site_escapes (j : Interp.J) :
+    (∀ h, Interp.run j = some h → h = j.sites) ∧
+    ((Interp.runOld j).2 ≠ [] ↔ Interp.run j = none) :=
+  ⟨Interp.run_handles_all j, Interp.runOld_escapes_iff j⟩
+
+
 end Genjax
